@@ -30,6 +30,8 @@ import (
 )
 
 type cmp struct {
+	// pairs of (original, result) lists / maps under comparison: a decoded list may contain itself
+	open    map[[2]uintptr]bool
 	nameMap map[string]string
 	w2g     map[unsafe.Pointer]unsafe.Pointer
 	g2w     map[unsafe.Pointer]unsafe.Pointer
@@ -445,6 +447,12 @@ func (c *cmp) static(path string, wv, gv reflect.Value, strictDyn bool) error {
 		}
 		return c.static(path, wv.Elem(), gv.Elem(), strictDyn)
 	case reflect.Slice:
+		if wv.Type().Elem().Kind() != reflect.Uint8 && wv.Len() > 0 && gv.Len() > 0 {
+			if c.enter(wv.Pointer(), gv.Pointer()) {
+				return nil // this pair is already being compared further up (cyclic lists)
+			}
+			defer c.leave(wv.Pointer(), gv.Pointer())
+		}
 		if wv.Type().Elem().Kind() == reflect.Uint8 {
 			if !bytes.Equal(wv.Bytes(), gv.Bytes()) {
 				return fail(path, "want []byte(%d) %x, got (%d) %x", wv.Len(), clipB(wv.Bytes()), gv.Len(), clipB(gv.Bytes()))
@@ -462,6 +470,12 @@ func (c *cmp) static(path string, wv, gv reflect.Value, strictDyn bool) error {
 	case reflect.Map:
 		if wv.Len() != gv.Len() {
 			return fail(path, "map size: want %d, got %d", wv.Len(), gv.Len())
+		}
+		if wv.Len() > 0 {
+			if c.enter(wv.Pointer(), gv.Pointer()) {
+				return nil
+			}
+			defer c.leave(wv.Pointer(), gv.Pointer())
 		}
 		it := wv.MapRange()
 		for it.Next() {
@@ -536,3 +550,17 @@ func clipN(s string, n int) string {
 func emptyString(v reflect.Value) bool {
 	return v.IsValid() && v.Kind() == reflect.String && v.Len() == 0
 }
+
+func (c *cmp) enter(a, b uintptr) bool {
+	if c.open == nil {
+		c.open = map[[2]uintptr]bool{}
+	}
+	k := [2]uintptr{a, b}
+	if c.open[k] {
+		return true
+	}
+	c.open[k] = true
+	return false
+}
+
+func (c *cmp) leave(a, b uintptr) { delete(c.open, [2]uintptr{a, b}) }
